@@ -22,15 +22,15 @@ INFO = {
             "Held on the hostile streams sent; liveness is read from the threads themselves, accounting from pool/selector state. Bounded-progress restatement of 'still accepts'."),
     "C06": ("§2 C06", "three-way differential: repo encoder/decoder vs independent reference codec over generated and mutated messages; byte-counting fake socket",
             "Held on the generated field tuples and hostile strings; reference codec written from the docstring is the second opinion."),
-    "C07": ("§2 C07", "every exception class in builtins/Pyro5.errors raised remotely through every call kind and serializer; compared with a locally built twin",
+    "C07": ("§2 C07", "every exception class in builtins/Pyro5.errors raised remotely through every call kind and serializer (plain daemons and application Daemon subclasses); compared with a locally built twin",
             "Held on the enumerated classes x generated args/attributes."),
-    "C08": ("§2 C08", "raw first messages of every type with pipelined INVOKEs; execution log + reply parser + EOF probe",
+    "C08": ("§2 C08", "raw first messages of every type with pipelined INVOKEs; execution log + reply parser + EOF probe; validators as subclass overrides, assigned on the instance, and swapped while serving",
             "Held on the generated first messages and validator behaviours."),
     "C09": ("§2 C09", "constructor-serial monitor over socket-level races and a controlled line-level scheduler on Daemon._getInstance",
             "Held on the generated histories and explored schedules (preemption-bounded systematic + random)."),
     "C10": ("§2 C10", "reference model of the stream table under a virtual clock, stepped in lock-step with a live daemon",
             "Held on the generated stream histories; the model tolerates the window between a deadline and the next housekeeping step."),
-    "C11": ("§2 C11", "differential: batch vs the same calls one by one on an identical object; state dump comparison",
+    "C11": ("§2 C11", "differential: batch vs the same calls one by one on an identical object (with and without a translating methodcall_error_handler); state dump comparison",
             "Held on the generated call lists."),
     "C12": ("§2 C12", "unique tokens in annotations/correlation ids; context snapshots inside methods; annotation record on every reply",
             "Held on the generated multi-client histories under both server types with sleep injection."),
@@ -40,11 +40,11 @@ INFO = {
             "Held on the generated histories; every sqlite statement of every mutating operation is failed once (fault_enumeration)."),
     "C15": ("§2 C15", "controlled line-level thread scheduler + linearizability checker against the map model; free-running stresses with a single-writer prefix-state oracle for listings and count/half-done oracles for bulk removals",
             "Held on the explored schedules (systematic to a preemption bound, then PCT/random)."),
-    "C16": ("§2 C16", "registry model stepped with generated register/unregister/call/return histories against a live daemon",
+    "C16": ("§2 C16", "registry model stepped with generated register/unregister/call/return histories against a live daemon; application converters that come and go between registrations",
             "Held on the generated histories."),
-    "C17": ("§2 C17", "scripted fake sockets; trace-based oracle; exhaustive small-scope enumeration of per-call socket behaviours + random large cases",
+    "C17": ("§2 C17", "scripted fake sockets; trace-based oracle; exhaustive small-scope enumeration of per-call socket behaviours + random large cases; non-blocking OS socket pairs with slow peers and descriptors above 1024",
             "Exhaustive within the stated small scope (n<=6, scripts<=L); beyond it sampled. The fake socket obeys OS realism rules."),
-    "C18": ("§2 C18", "controlled line-level thread scheduler on the real Pool/Worker (incl. thread-start faults and jobs that end their thread) + socket-level stress with sleep injection",
+    "C18": ("§2 C18", "controlled line-level thread scheduler on the real Pool/Worker (incl. thread-start faults and jobs that end their thread) + socket-level stress with sleep injection + two daemons in one process whose connection hooks are clients of each other",
             "Held on the explored schedules and socket runs."),
     "C19": ("§2 C19", "grammar-based string generation; differential on URI()/str()/hash/serializers/proxy state/name server",
             "Held on the generated strings; acceptance is whatever URI() accepts."),
